@@ -262,7 +262,11 @@ class ShuffleReduce(Expr):
         # Convert back to Series if necessary
         if self.shuffle_by_index is not False:
             if is_series_like(self._meta) and is_series_like(self.frame._meta):
-                shuffled = shuffled[shuffled.columns[0]]
+                column = shuffled.columns[0]
+                shuffled = shuffled[column]
+                if column == "__series__":
+                    # only the placeholder label of the frame that was shuffled
+                    shuffled = RenameSeries(shuffled, self.frame._meta.name)
             elif is_index_like(self._meta):
                 column = shuffled.columns[0]
                 divs = None if shuffled.divisions[0] is None else shuffled.divisions
